@@ -533,3 +533,6 @@ more("C02",
           "2-3 images of disjoint footprints in several orders is compared, tile set and pixels, with TLC's evaluation of the stored base layer (spec/MCDeep.tla).")
 more("C14",
      text="A tile that exists although no leaf lies beneath it (left by an earlier cascade) is a violation: its range describes data that does not exist.")
+more("C18",
+     note="The harness tolerates files vanishing under its reads, waits (bounded) for threads the code under test started and for the disk to stand still before judging it, and treats "
+          "concurrent put_item calls as drift from the step order while still judging the disk.")
